@@ -286,6 +286,31 @@ def replay_generic(ctx, path):
     ctx.validate(rp["module"], rp["cfg"], [sc], label="replay of " + os.path.basename(path))
 
 
+def crashed(rc, argv):
+    """bin/check: the checking process was killed by a signal raised in native code (see bin/check)"""
+    import argparse
+    import signal
+
+    ap = argparse.ArgumentParser()
+    ap.add_argument("prop")
+    ap.add_argument("--tier", default=os.environ.get("VERIF_TIER", "quick"), choices=["quick", "thorough"])
+    ap.add_argument("--replay")
+    ap.add_argument("--keep", action="store_true")
+    a = ap.parse_args(argv)
+    seed = int(os.environ.get("VERIF_SEED", "0") or 0)
+    ctx = Ctx(a.prop.upper(), a.tier, seed)
+    sig = int(rc) - 128
+    try:
+        name = signal.Signals(sig).name
+    except ValueError:
+        name = "signal %d" % sig
+    ctx.assumptions.append("the checking process died; nothing of this run's coverage was recorded")
+    ctx.violation("the implementation's native code killed the checking process with %s while the harness was calling it "
+                  "(re-run `bin/check %s --tier %s` with VERIF_SEED=%d to reproduce)" % (name, ctx.prop, a.tier, seed),
+                  {"signal": name, "tier": a.tier, "seed": seed})
+    return ctx.finish(write_evidence=not a.replay and not os.environ.get("VERIF_KEEP_EVIDENCE"))
+
+
 def main(argv):
     import argparse
     import importlib
